@@ -168,19 +168,42 @@ CHECK = {
     "rule": "histories of update/reset (W in 1..64 incl. powers of two and neighbours, precisions 1..1e-6, length 0..10W, "
             "|value|/precision up to 1e8, resets aimed at window phases W-1, W, W+1, 2W+1) and append/clear on rings of capacity "
             "1..16 (random + every capacity with a clear at every phase); non-trivial = the window / ring rolled over",
-    "trusted": ["hand-written model coq/OnlineStatsModel.v tied by differential execution (this run)",
-                "extraction (ExtrOcamlBasic), ocaml/numf.ml, ocaml/drv_C16.ml", "harness/C16.cpp (reads protected members through derived "
-                "classes), python oracle in checks/C16.py"],
-    "assumptions": ["|value|/precision <= 1e8 and W <= 64 (no 64-bit overflow: theorem C16_sums_fit_64_bits)",
-                    "std::vector behaves as a list; double arithmetic of the average/variance formulas is observed, not proved"],
+    "trusted": ["translate/tr_C16_stats.py (clang JSON AST -> gen/SrcStats.v) and the meaning coq/StatsSem.v gives to size_t / long long / int "
+                "arithmetic and std::vector operations", "clang's AST", "extraction (ExtrOcamlBasic), ocaml/numf.ml, ocaml/drv_C16.ml",
+                "harness/C16.cpp (reads protected members through derived classes), python oracle in checks/C16.py",
+                "Flocq's formalisation of binary64 (rounding to nearest-even, unbounded exponent; every quantity is < 2^64)"],
+    "assumptions": ["|value|/precision <= 1e8, W <= 64, precision in [1e-6, 1] (no 64-bit overflow: proved, C16_sums_fit_64_bits and "
+                    "inside C16_source_tie_*_history)",
+                    "std::vector behaves as a list; locking (std::lock_guard) has no sequential effect (C19)",
+                    "double arithmetic of the average is proved in binary64 (one rounding); of the variance bounded (7 roundings); "
+                    "the truncation static_cast<long long>(value*multiplier) of a product within rounding distance of an integer is "
+                    "observed (oracle accepts both neighbours)"],
     "manifest": {
-        "text": "For every window size, capacity and history (induction over op lists): the stored window is exactly the last "
-                "min(n,W) truncated samples since the last reset, sums are exact over that window (no drift), availability iff W "
-                "samples, average/variance formulas are the mean / unbiased sample variance (over R), ring entry k is the k-th most "
-                "recent for every capacity (size_t wrap modelled) also after clear — proved in Coq; model tied to the code by "
-                "executing the extracted model against the real classes on generated histories, with an independent oracle.",
-        "note": "Trusted: Coq kernel, stdlib real axioms (average/variance theorems only; integer theorems are axiom-free), "
-                "hand model tied by differential run, extraction, float dictionary, harness, oracle. Float rounding observed.",
-        "technique": "Coq proof (ring-buffer invariant by induction over histories, refinement to 'last W items') + extracted-model correspondence",
+        "text": "SYNTACTIC TIE: translate/tr_C16_stats.py regenerates on every run, from the clang AST of OnlineAverage.cpp, "
+                "OnlineVariance.cpp and RingOfEigenVector.hpp, one Gallina state transformer per member function (constructors incl. "
+                "multiplier_ / squaredMultiplier_, setWindowSize, update, reset, isAvailable, getAverage, getVariance; ring ctor, append, "
+                "operator[], clear, size) over a record of the data members, with the wrap-around of size_t / long long / int explicit "
+                "(coq/gen/SrcStats.v); coq/SrcTieC16.v proves each equal, step for step, to the transition of the model "
+                "OnlineStatsModel.v (simulation; side conditions 'fits its C++ type' discharged for EVERY history from W <= 64, "
+                "|sample| <= 1e8), so the theorems hold of the code as written (C16_source_tie_*): for every window size, capacity and "
+                "history (induction over op lists) the stored window is exactly the last min(n,W) truncated samples since the last "
+                "reset, sums are exact over that window (no drift), availability iff W samples, getAverage / getVariance are the mean / "
+                "unbiased sample variance over R, ring entry k is the k-th most recent for every capacity (2^64 wrap of both size_t "
+                "operations) also after clear, and no partial C++ operation (% windowSize_, data_[index_]) is ever used outside its domain. "
+                "The tie holds for every numeric dictionary in which int 1 converts to one and the product commutes (reals, binary64). "
+                "FLOAT LEVEL (Flocq, binary64, coq/OnlineStatsFloat.v): multiplier in 1..1e6, truncated "
+                "samples bounded, double(sum), double(multiplier), size and multiplier*size exact, so the reported average is the exact "
+                "mean rounded ONCE (relative error <= 2^-53, independent of the history length: no drift as a float theorem, also "
+                "stated about the generated code); variance within 2^-53(7A+9B)/(W-1)+3*2^-1075 of the exact unbiased variance "
+                "(A = sum y^2, B = W mean^2). The extracted model is additionally run against the real classes on generated histories, "
+                "with an independent exact-rational oracle.",
+        "note": "Trusted: Coq kernel, stdlib real axioms (theorems over R / binary64 only; the integer and source-tie-to-model theorems are "
+                "axiom-free), the translator and StatsSem.v's reading of C++ integer types / std::vector, clang's AST, Flocq's binary64 "
+                "(no overflow modelled: all quantities < 2^64), extraction, float dictionary of the executable run, harness, oracle. "
+                "Signed overflow is modelled as two's-complement wrap and proved absent under the property's bounds; float->int "
+                "conversions out of range (UB) are outside the bounds.",
+        "technique": "Coq proof (ring-buffer invariant by induction over histories, refinement to 'last W items') tied to the source by "
+                     "AST translation of the member functions + simulation lemmas; Flocq forward error analysis in binary64; "
+                     "extracted-model correspondence run",
     },
 }
